@@ -1199,7 +1199,7 @@ def path_lean(p):
 
 def to_lean(entries, meta, repo):
     out = ["import NurbsVerif.Model.Effects",
-           "/-! GENERATED by harness/effects.py from %s/geomdl/{abstract,BSpline,NURBS,multi,operations}.py – do not edit." % repo,
+           "/-! GENERATED by harness/effects.py from geomdl/{abstract,BSpline,NURBS,multi,operations}.py of the tree under check – do not edit.",
            "    %d operations, %d event paths.  -/" % (meta['n_entries'], meta['n_paths']),
            "namespace Gen", "open Eff", ""]
     names = []
